@@ -316,6 +316,7 @@ class Ctx:
         self.known = load_known(pid)
         self.nreplay = 0
         self.thorough = tier == 'thorough'
+        self.stage_times = {}
         try:
             for fn in os.listdir(REPLAYS):
                 if fn.startswith(f'{pid}-'):
@@ -345,6 +346,7 @@ class Ctx:
             self.broken.append({'kind': 'obligation', 'name': name, 'detail': detail[:3000]})
 
     def correspondence(self, name: str, cases: int, mismatches: list):
+        self.stage_times[name[:40]] = round(time.time() - self.t0, 1)
         self.corr.append({'name': name, 'cases': cases, 'mismatches': len(mismatches)})
         if mismatches:
             self.broken.append({'kind': 'correspondence', 'name': name, 'detail': json.dumps(mismatches[:5], default=repr)[:3000]})
@@ -446,6 +448,7 @@ class Ctx:
             'violations_detail': [{'signature': v['signature'], 'what': v['what']} for v in self.violations],
             'broken': self.broken,
         }
+        cov['stage_times_s'] = self.stage_times
         cov.update(self.extra)
         ev = {
             'property_id': self.pid,
